@@ -518,6 +518,14 @@ class Interp:
         if isinstance(v, ast.Call) and isinstance(v.func, ast.Name) and v.func.id == 'print':
             self.dropped.add('print')
             return
+        if isinstance(v, ast.Call) and isinstance(v.func, ast.Attribute) and v.func.attr == 'append' and len(v.args) == 1 and not v.keywords:
+            tgt = v.func.value
+            cur = self.ev(tgt, frame)
+            if isinstance(cur, Seg) and cur.kind == 'list' and isinstance(tgt, (ast.Name, ast.Attribute)):
+                # list.append on a loop-carried list: accumulator append (the list is rebound to the extended sequence)
+                item = self.ev(v.args[0], frame)
+                self.assign(_as_store(tgt), self.seg_append(cur, [item]), frame)
+                return
         self.ev(v, frame)
 
     def st_Pass(self, st, frame):
@@ -2097,6 +2105,32 @@ def _as_load(t):
     return t2
 
 
+def _as_store(t):
+    import copy
+    t2 = copy.copy(t)
+    t2.ctx = ast.Store()
+    return t2
+
+
+def subst_value(v, k, t):
+    """value v with the loop variable k replaced by term t (z3 terms, time stamps, arrays, tuples)"""
+    if is_z3(v):
+        return z3.substitute(v, (k, lift(t)))
+    if isinstance(v, TS):
+        return TS(subst_value(v.t, k, t), v.tz)
+    if isinstance(v, TD):
+        return TD(subst_value(v.d, k, t))
+    if isinstance(v, Arr):
+        f0 = v.f
+        out = Arr(subst_value(v.n, k, t), lambda i, f0=f0: subst_value(f0(i), k, t), kind=v.kind)
+        return out
+    if isinstance(v, (tuple, list)):
+        return type(v)(subst_value(x, k, t) for x in v)
+    if isinstance(v, Opt):
+        return Opt(subst_value(v.null, k, t), subst_value(v.val, k, t))
+    return v
+
+
 def free_consts(t):
     """names of uninterpreted constants occurring in term t"""
     out = set()
@@ -2183,6 +2217,7 @@ def loop_carried(st):
     (conservative syntactic def-use scan in statement order)."""
     assigned_anywhere = set()
     attr_assigned = set()
+    append_names, append_attrs = set(), set()
     for n in ast.walk(st):
         if isinstance(n, ast.Name) and isinstance(n.ctx, ast.Store):
             assigned_anywhere.add(n.id)
@@ -2194,6 +2229,15 @@ def loop_carried(st):
                 assigned_anywhere.add(t.id)
             elif isinstance(t, ast.Attribute) and isinstance(t.value, ast.Name):
                 attr_assigned.add((t.value.id, t.attr))
+    for n in ast.walk(st):
+        if isinstance(n, ast.Call) and isinstance(n.func, ast.Attribute) and n.func.attr in ('append',):
+            tgt = n.func.value
+            if isinstance(tgt, ast.Name):
+                assigned_anywhere.add(tgt.id)
+                append_names.add(tgt.id)
+            elif isinstance(tgt, ast.Attribute) and isinstance(tgt.value, ast.Name):
+                attr_assigned.add((tgt.value.id, tgt.attr))
+                append_attrs.add((tgt.value.id, tgt.attr))
     # loop targets are defined by the loop itself
     defined = set()
     for n in ast.walk(st.target):
@@ -2256,4 +2300,4 @@ def loop_carried(st):
                     if isinstance(ch, ast.expr):
                         visit_expr(ch, defined_now)
     visit_block(st.body, set(defined))
-    return dict(names=carried, attrs=carried_attrs)
+    return dict(names=carried | append_names, attrs=carried_attrs | append_attrs)
